@@ -12,6 +12,7 @@
 #include "esl_bitfield.h"
 #include "esl_keyhash.h"
 #include "esl_msa.h"
+#include "esl_random.h"
 #include "esl_sq.h"
 #include "esl_wuss.h"
 
@@ -252,6 +253,33 @@ static void h_op(void)
     if ((s = arg_str("mm"))      != NULL) { free(A->mm);      A->mm      = s; }
     if (h_argi("haswgts", 0)) A->flags |= eslMSA_HASWGTS;
     h_out("ok");
+  } else if (!strcmp(op, "setstr") || !strcmp(op, "fmtstr")) {
+    /* esl_msa_Set{Name,Desc,Accession,Author,SeqName,SeqAccession,SeqDescription}(msa, [i,] v, n) with an explicit length <n>
+     * (n = -1: NUL-terminated), v = ~: NULL;  fmtstr: the esl_msa_Format* twin with the format "%s|%d" (v = ~: NULL format) */
+    const char *f = h_arg("f"); int set = !strcmp(op, "setstr"); int st = eslOK;
+    int i = (int) h_argi("i", 0); int64_t n = h_argi("n", -1); int k = (int) h_argi("k", 0); char *v = arg_str("v");
+    const char *fmt = v ? "%s|%d" : NULL;
+    if (!A || !f || i < 0 || (set && v && n > (int64_t) strlen(v)) || (set && !v && n > 0)) { free(v); h_out("bad-op"); return; }
+    if      (!strcmp(f, "name"))   st = set ? esl_msa_SetName(A, v, n)               : esl_msa_FormatName(A, fmt, v, k);
+    else if (!strcmp(f, "desc"))   st = set ? esl_msa_SetDesc(A, v, n)               : esl_msa_FormatDesc(A, fmt, v, k);
+    else if (!strcmp(f, "acc"))    st = set ? esl_msa_SetAccession(A, v, n)          : esl_msa_FormatAccession(A, fmt, v, k);
+    else if (!strcmp(f, "au"))     st = set ? esl_msa_SetAuthor(A, v, n)             : esl_msa_FormatAuthor(A, fmt, v, k);
+    else if (!strcmp(f, "sqname")) st = set ? esl_msa_SetSeqName(A, i, v, n)         : esl_msa_FormatSeqName(A, i, fmt, v, k);
+    else if (!strcmp(f, "sqacc"))  st = set ? esl_msa_SetSeqAccession(A, i, v, n)    : esl_msa_FormatSeqAccession(A, i, fmt, v, k);
+    else if (!strcmp(f, "sqdesc")) st = set ? esl_msa_SetSeqDescription(A, i, v, n)  : esl_msa_FormatSeqDescription(A, i, fmt, v, k);
+    else { free(v); h_out("bad-op"); return; }
+    free(v);
+    out_status(st);
+  } else if (!strcmp(op, "sample")) {
+    /* esl_msa_Sample(rng, abc, max_nseq, max_alen, &A) with a Mersenne Twister seeded <seed> (> 0) */
+    ESL_ALPHABET *abc = get_abc(h_arg("abc")); int64_t seed = h_argi("seed", 0); int maxn = (int) h_argi("maxn", 0), maxa = (int) h_argi("maxa", 0);
+    ESL_RANDOMNESS *rng; int st;
+    if (!abc || seed <= 0 || seed >= 4294967296LL || maxn <= 0 || maxa <= 0) { h_out("bad-op"); return; }
+    rng = esl_randomness_Create((uint32_t) seed);
+    if (A) esl_msa_Destroy(A); A = NULL;
+    st = esl_msa_Sample(rng, abc, maxn, maxa, &A);
+    esl_randomness_Destroy(rng);
+    out_status(st);
   } else if (!strcmp(op, "cut")) {
     int k = (int) h_argi("i", 0); const char *v = h_arg("v"); uint32_t u = v ? (uint32_t) strtoul(v, NULL, 16) : 0;
     if (!A || k < 0 || k >= eslMSA_NCUTS) { h_out("bad-op"); return; }
